@@ -23,8 +23,16 @@ def _run(r):
     labels = [[_lab(l, strings) for l in labs] for labs in inp["labels"]]
     removed = _lab(inp["removed"], strings) if p["prune"] else None
     kw = {"ignored_tokens": {removed}} if p["prune"] else {}
+    mask = p.get("mask")
+    mask_label = None
+    if mask:
+        mask_label = "#" if strings else -7
+        kw["mask_string"] = mask_label
+        kw["nullify_mask"] = mask == "nullify"
     est = LabelledTreeCooccurrenceVectorizer(window_radius=p["radius"], kernel_function=p["kernel"], window_orientation=p["orientation"], **kw)
-    X = [(_adj(f), list(l)) for f, l in zip(p["forest"], labels)]
+    mats = [(_adj(f).tolil() if p.get("lil") else _adj(f)) for f in p["forest"]]
+    snap = [m.toarray().copy() for m in mats]
+    X = [(m, list(l)) for m, l in zip(mats, labels)]
     try:
         M = est.fit_transform(X)
     except ValueError as e:
@@ -32,7 +40,21 @@ def _run(r):
     vocab = est.token_label_dictionary_
     V = len(vocab)
     after = np.zeros((V, V))
-    for parents, labs in zip(p["forest"], labels):
+    pre_bad = []
+    if any(not np.array_equal(m.toarray(), s0) for m, s0 in zip(mats, snap)):
+        pre_bad.append("fit modified the caller's adjacency matrices")
+    if mask:
+        if mask_label not in vocab or vocab[mask_label] != V - 1:
+            pre_bad.append("mask entry")
+        for parents, labs in zip(p["forest"], labels):
+            idx = [(V - 1) if l == removed else vocab.get(l, V - 1) for l in labs]
+            for v in range(len(parents)):
+                u, k = parents[v], 1
+                while u is not None and k <= p["radius"]:
+                    if not (mask == "nullify" and (idx[u] == V - 1 or idx[v] == V - 1)):
+                        after[idx[u], idx[v]] += 1.0 if p["kernel"] == "flat" else 1.0 / k
+                    u, k = parents[u], k + 1
+    for parents, labs in ([] if mask else zip(p["forest"], labels)):
         n = len(parents)
         kept = [l != removed for l in labs]
 
@@ -50,7 +72,7 @@ def _run(r):
                 u, k = cparent(u), k + 1
     o = p["orientation"]
     exp = {"after": after, "before": after.T, "symmetric": after + after.T, "directional": np.hstack([after.T, after])}[o]
-    bad = []
+    bad = list(pre_bad)
     if removed is not None and removed in vocab:
         bad.append("removed label kept")
     if M.shape != exp.shape:
@@ -61,6 +83,8 @@ def _run(r):
         T = est.transform(X)
         if T.shape != M.shape or not np.allclose(T.toarray(), M.toarray()):
             bad.append("transform(X) != fit_transform(X)")
+        if any(not np.array_equal(m.toarray(), s0) for m, s0 in zip(mats, snap)):
+            bad.append("transform modified the caller's adjacency matrices")
     return M, vocab, bad, False
 
 
